@@ -1,1 +1,892 @@
-"""placeholder"""
+"""Molfile writer rules: R-LEN (interval proof of the 80-character bound),
+R-WRAP (wrap/splice constants agree), R-FIELDS (writer templates put fields
+where the reader reads them)."""
+from __future__ import annotations
+
+import ast
+import math
+from typing import Optional
+
+from ..concrete import Unsupported, ceval
+from ..heap import prov, taint
+from ..model import AnalysisError, FuncInfo, norm, short
+from ..report import Finding, RuleResult
+from . import rule
+from .common import assigned_names, closure, entry, kwarg, own_walk, params_of, single_def, sites, try_const
+from .readers import _labels, analyse_reader, reader_entries, _token_predicates
+from .spec import STRFTIME_WIDTH
+
+INF = math.inf
+LIMIT = 79          # 80 characters including the newline
+
+
+class Iv:
+    """length interval of a string value; `num` marks values that are numbers (their text never ends in '-')"""
+    __slots__ = ("lo", "hi", "kind")
+
+    def __init__(self, lo=0, hi=INF, kind="str"):
+        self.lo, self.hi, self.kind = lo, hi, kind
+
+    def __repr__(self):
+        return f"[{self.lo},{'inf' if self.hi == INF else self.hi}]"
+
+
+def iv_join(a: Optional[Iv], b: Optional[Iv]) -> Iv:
+    if a is None:
+        return b
+    if b is None:
+        return a
+    return Iv(min(a.lo, b.lo), max(a.hi, b.hi), a.kind if a.kind == b.kind else "str")
+
+
+class LenInterp:
+    """intraprocedural interval analysis of string lengths with path conditions on `len(x) <= c`;
+    parameters get the join of their call-site arguments (entry parameters: unknown)"""
+
+    def __init__(self, ctx, fis: list[FuncInfo]):
+        self.ctx = ctx
+        self.fis = fis
+        self.param_iv: dict[tuple[str, str], Iv] = {}
+        self.appends: list[tuple[FuncInfo, ast.Call, Iv, str]] = []
+        self.unsupported: list[str] = []
+
+    def run(self):
+        for _ in range(3):
+            self.appends = []
+            self.calls: dict[tuple[str, str], Iv] = {}
+            for fi in self.fis:
+                self.func(fi)
+            changed = False
+            for k, v in self.calls.items():
+                old = self.param_iv.get(k)
+                new = iv_join(old, v) if old is not None else v
+                if old is None or (new.lo, new.hi) != (old.lo, old.hi):
+                    self.param_iv[k] = new
+                    changed = True
+            if not changed:
+                break
+        return self.appends
+
+    def func(self, fi: FuncInfo):
+        env: dict[str, Iv] = {}
+        for p in params_of(fi.node):
+            env[p] = self.param_iv.get((fi.fq, p), Iv())
+        self.block(fi, fi.node.body, env)
+
+    def block(self, fi, body, env):
+        for st in body:
+            env = self.stmt(fi, st, env)
+            if env is None:
+                return None
+        return env
+
+    def stmt(self, fi, st, env):
+        if isinstance(st, ast.Expr):
+            self.scan_calls(fi, st.value, env)
+            return env
+        if isinstance(st, (ast.Assign, ast.AnnAssign)):
+            value = st.value
+            if value is None:
+                return env
+            self.scan_calls(fi, value, env)
+            tg = st.targets[0] if isinstance(st, ast.Assign) else st.target
+            env = dict(env)
+            if isinstance(tg, ast.Name):
+                env[tg.id] = self.ev(fi, value, env)
+            elif isinstance(tg, ast.Tuple) and isinstance(value, ast.Tuple) and len(tg.elts) == len(value.elts):
+                vals = [self.ev(fi, v, env) for v in value.elts]
+                for t, v in zip(tg.elts, vals):
+                    if isinstance(t, ast.Name):
+                        env[t.id] = v
+            else:
+                for n in ast.walk(tg):
+                    if isinstance(n, ast.Name):
+                        env[n.id] = Iv()
+            return env
+        if isinstance(st, ast.AugAssign):
+            env = dict(env)
+            if isinstance(st.target, ast.Name):
+                a, b = env.get(st.target.id, Iv()), self.ev(fi, st.value, env)
+                env[st.target.id] = Iv(a.lo + b.lo, a.hi + b.hi) if isinstance(st.op, ast.Add) else Iv()
+            return env
+        if isinstance(st, ast.If):
+            et, ef = self.refine(fi, st.test, env)
+            self.scan_calls(fi, st.test, env)
+            a = self.block(fi, st.body, et) if et is not None else None
+            b = self.block(fi, st.orelse, ef) if ef is not None else None
+            if a is None:
+                return b
+            if b is None:
+                return a
+            out = {}
+            for k in set(a) | set(b):
+                out[k] = iv_join(a.get(k), b.get(k))
+            return out
+        if isinstance(st, (ast.While, ast.For)):
+            if isinstance(st, ast.For):
+                self.scan_calls(fi, st.iter, env)
+            # loop: iterate the body from a state where every variable assigned in the loop is widened
+            assigned = set()
+            for n in ast.walk(st):
+                if isinstance(n, (ast.Assign, ast.AugAssign, ast.AnnAssign, ast.NamedExpr, ast.For)):
+                    tg = n.targets[0] if isinstance(n, ast.Assign) else n.target
+                    for x in ast.walk(tg):
+                        if isinstance(x, ast.Name):
+                            assigned.add(x.id)
+            env2 = dict(env)
+            for a in assigned:
+                old = env.get(a)
+                env2[a] = Iv(0, old.hi if old is not None and a in env and not isinstance(st, ast.For) and False else INF)
+            # a variable only ever shortened by slicing keeps its upper bound
+            for a in assigned:
+                if a in env and self._only_shortened(st, a):
+                    env2[a] = Iv(0, env[a].hi, env[a].kind)
+            if isinstance(st, ast.While):
+                et, ef = self.refine(fi, st.test, env2)
+                self.block(fi, st.body, et if et is not None else env2)
+            else:
+                self.block(fi, st.body, env2)
+            out = dict(env2)
+            return out
+        if isinstance(st, (ast.Return, ast.Raise)):
+            if getattr(st, "value", None) is not None:
+                self.scan_calls(fi, st.value, env)
+            return None
+        if isinstance(st, (ast.Break, ast.Continue)):
+            return None
+        if isinstance(st, (ast.Pass, ast.Assert, ast.Import, ast.ImportFrom)):
+            return env
+        if isinstance(st, ast.With):
+            return self.block(fi, st.body, env)
+        self.unsupported.append(f"{type(st).__name__} at {fi.loc(st)}")
+        return env
+
+    def _only_shortened(self, loop, name) -> bool:
+        for n in ast.walk(loop):
+            if isinstance(n, ast.Assign):
+                tgs = n.targets[0]
+                pairs = []
+                if isinstance(tgs, ast.Tuple) and isinstance(n.value, ast.Tuple):
+                    pairs = list(zip(tgs.elts, n.value.elts))
+                else:
+                    pairs = [(tgs, n.value)]
+                for t, v in pairs:
+                    if isinstance(t, ast.Name) and t.id == name:
+                        if not (isinstance(v, ast.Subscript) and isinstance(v.slice, ast.Slice) and isinstance(v.value, ast.Name) and v.value.id == name):
+                            return False
+            elif isinstance(n, (ast.AugAssign, ast.NamedExpr)) and isinstance(n.target, ast.Name) and n.target.id == name:
+                return False
+        return True
+
+    def refine(self, fi, test, env):
+        """(env if true, env if false); None for an infeasible branch"""
+        if isinstance(test, ast.Constant):
+            return (env, None) if test.value else (None, env)
+        if isinstance(test, ast.Compare) and len(test.ops) == 1 and isinstance(test.left, ast.Call) and isinstance(test.left.func, ast.Name) \
+                and test.left.func.id == "len" and len(test.left.args) == 1 and isinstance(test.left.args[0], ast.Name):
+            c = try_const(self.ctx, fi, test.comparators[0])
+            name = test.left.args[0].id
+            v = env.get(name, Iv())
+            if isinstance(c, int):
+                op = test.ops[0]
+                et, ef = dict(env), dict(env)
+                if isinstance(op, ast.LtE):
+                    et[name] = Iv(v.lo, min(v.hi, c), v.kind); ef[name] = Iv(max(v.lo, c + 1), v.hi, v.kind)
+                elif isinstance(op, ast.Lt):
+                    et[name] = Iv(v.lo, min(v.hi, c - 1), v.kind); ef[name] = Iv(max(v.lo, c), v.hi, v.kind)
+                elif isinstance(op, ast.Gt):
+                    ef[name] = Iv(v.lo, min(v.hi, c), v.kind); et[name] = Iv(max(v.lo, c + 1), v.hi, v.kind)
+                elif isinstance(op, ast.GtE):
+                    ef[name] = Iv(v.lo, min(v.hi, c - 1), v.kind); et[name] = Iv(max(v.lo, c), v.hi, v.kind)
+                else:
+                    return env, env
+                if et[name].lo > et[name].hi:
+                    et = None
+                if ef[name].lo > ef[name].hi:
+                    ef = None
+                return et, ef
+        if isinstance(test, ast.UnaryOp) and isinstance(test.op, ast.Not):
+            a, b = self.refine(fi, test.operand, env)
+            return b, a
+        return env, env
+
+    def scan_calls(self, fi, e, env):
+        """record append sites and arguments passed to tucan callees"""
+        for n in own_walk(e) if not isinstance(e, ast.Call) else [e] + [x for x in own_walk(e) if x is not e]:
+            if not isinstance(n, ast.Call):
+                continue
+            if isinstance(n.func, ast.Attribute) and n.func.attr in ("append", "insert", "appendleft") and n.args:
+                recv = n.func.value
+                if isinstance(recv, ast.Name):
+                    self.appends.append((fi, n, self.ev(fi, n.args[-1], env), recv.id))
+            if isinstance(n.func, ast.Attribute) and n.func.attr in ("extend",) and n.args:
+                recv = n.func.value
+                if isinstance(recv, ast.Name):
+                    self.appends.append((fi, n, Iv(), recv.id))
+            cs = self.ctx.cg.resolve_call(fi, n, self.ctx.cg.local_types(fi), set(params_of(fi.node)))
+            if cs.kind == "tucan":
+                tp = params_of(cs.target.node)
+                for p, a in zip(tp, n.args):
+                    k = (cs.target.fq, p)
+                    self.calls[k] = iv_join(self.calls.get(k), self.ev(fi, a, env))
+
+    def ev(self, fi, e, env) -> Iv:
+        if isinstance(e, ast.Constant):
+            if isinstance(e.value, str):
+                return Iv(len(e.value), len(e.value))
+            if isinstance(e.value, (int, float)):
+                return Iv(1, INF, "num")
+            return Iv()
+        if isinstance(e, ast.Name):
+            if e.id in env:
+                return env[e.id]
+            c = try_const(self.ctx, fi, e)
+            if isinstance(c, str):
+                return Iv(len(c), len(c))
+            return Iv()
+        if isinstance(e, ast.JoinedStr):
+            lo = hi = 0
+            for p in e.values:
+                if isinstance(p, ast.Constant):
+                    lo += len(p.value); hi += len(p.value)
+                else:
+                    v = self.ev(fi, p.value, env)
+                    vlo, vhi = v.lo, v.hi
+                    if p.format_spec is not None:
+                        spec = try_const(self.ctx, fi, p.format_spec)
+                        w = _spec_min_width(spec) if isinstance(spec, str) else None
+                        if w is None and spec:
+                            vlo, vhi = 1, INF
+                        elif w:
+                            vlo = max(vlo, w)
+                            vhi = max(vhi, w)
+                        if isinstance(spec, str) and spec.endswith("f"):
+                            vlo, vhi = 1, INF
+                    lo += vlo
+                    hi += vhi
+            return Iv(lo, hi)
+        if isinstance(e, ast.BinOp) and isinstance(e.op, ast.Add):
+            a, b = self.ev(fi, e.left, env), self.ev(fi, e.right, env)
+            if a.kind == "num" or b.kind == "num":
+                return Iv(1, INF, "num")
+            return Iv(a.lo + b.lo, a.hi + b.hi)
+        if isinstance(e, ast.BinOp):
+            return Iv(1, INF, "num")
+        if isinstance(e, ast.IfExp):
+            return iv_join(self.ev(fi, e.body, env), self.ev(fi, e.orelse, env))
+        if isinstance(e, ast.Subscript) and isinstance(e.slice, ast.Slice):
+            b = self.ev(fi, e.value, env)
+            lo = try_const(self.ctx, fi, e.slice.lower) if e.slice.lower is not None else 0
+            hi = try_const(self.ctx, fi, e.slice.upper) if e.slice.upper is not None else None
+            if e.slice.step is not None or not isinstance(lo, int) or (hi is not None and not isinstance(hi, int)) or lo < 0 or (hi is not None and hi < 0):
+                return Iv(0, b.hi)
+            if hi is None:
+                return Iv(max(b.lo - lo, 0), max(b.hi - lo, 0) if b.hi != INF else INF)
+            return Iv(max(min(b.lo, hi) - lo, 0), max(min(b.hi, hi) - lo, 0))
+        if isinstance(e, ast.Call):
+            if isinstance(e.func, ast.Attribute):
+                m = e.func.attr
+                if m == "strftime" and e.args:
+                    fmt = try_const(self.ctx, fi, e.args[0])
+                    if isinstance(fmt, str):
+                        n, i = 0, 0
+                        while i < len(fmt):
+                            if fmt[i] == "%" and i + 1 < len(fmt):
+                                w = STRFTIME_WIDTH.get(fmt[i:i + 2])
+                                if w is None:
+                                    return Iv()
+                                n += w
+                                i += 2
+                            else:
+                                n += 1
+                                i += 1
+                        return Iv(n, n)
+                    return Iv()
+                recv = self.ev(fi, e.func.value, env)
+                if m in ("strip", "rstrip", "lstrip", "lower", "upper"):
+                    return Iv(0 if m.endswith("strip") else recv.lo, recv.hi)
+                if m == "replace" and len(e.args) == 2:
+                    a, b = try_const(self.ctx, fi, e.args[0]), try_const(self.ctx, fi, e.args[1])
+                    if isinstance(a, str) and isinstance(b, str) and len(b) <= len(a):
+                        return Iv(0, recv.hi)
+                    return Iv()
+                if m == "join":
+                    return Iv()
+                return Iv()
+            if isinstance(e.func, ast.Name) and e.func.id == "str" and e.args:
+                v = self.ev(fi, e.args[0], env)
+                return Iv(1, INF) if v.kind == "num" else v
+            return Iv()
+        if isinstance(e, ast.Attribute):
+            c = try_const(self.ctx, fi, e)
+            if isinstance(c, str):
+                return Iv(len(c), len(c))
+            return Iv()
+        return Iv()
+
+
+def _spec_min_width(spec: str) -> Optional[int]:
+    """minimum width of a format spec like ' <3', '>8', '05d'; 0 if none"""
+    import re
+    m = re.fullmatch(r"(?:(.)?([<>=^]))?([+\- ])?(#)?(0)?(\d+)?([,_])?(\.\d+)?([a-zA-Z%])?", spec or "")
+    if not m:
+        return None
+    return int(m.group(6)) if m.group(6) else 0
+
+
+def _writer_out_list(ctx, w: FuncInfo) -> tuple[str, ast.Return]:
+    """name of the list whose elements are the lines of the returned text, and the return"""
+    for n in own_walk(w.node):
+        if isinstance(n, ast.Return) and isinstance(n.value, ast.Call) and isinstance(n.value.func, ast.Attribute) and n.value.func.attr == "join" \
+                and n.value.args and isinstance(n.value.args[0], ast.Name):
+            return n.value.args[0].id, n
+    raise AnalysisError("graph_to_molfile no longer returns `<sep>.join(<list>)`")
+
+
+@rule("R-LEN")
+def r_len(ctx) -> RuleResult:
+    res = RuleResult("R-LEN", "every string that becomes a line of the written molfile has length <= 79 (80 with the newline), proved by interval analysis over all paths of the writer")
+    w = entry(ctx, "write")
+    out_list, ret = _writer_out_list(ctx, w)
+    sep = try_const(ctx, w, ret.value.func.value)
+    res.inst(w.fq, short(ret), "ok" if sep == "\n" else "fail", detail="lines are joined with a newline")
+    if sep != "\n":
+        res.fail(Finding("R-LEN", w.module.rel, w.qualname, norm(ret), f"lines are joined with {sep!r}, not with a newline", line=ret.lineno))
+    fis = closure(ctx, "write")
+    # which list parameters alias the output list: parameters that receive it at call sites (transitively)
+    out_params = {(w.fq, out_list)}
+    for _ in range(4):
+        for fi in fis:
+            for cs in sites(ctx, fi):
+                if cs.kind == "tucan":
+                    tp = params_of(cs.target.node)
+                    for p, a in zip(tp, cs.node.args):
+                        if isinstance(a, ast.Name) and (fi.fq, a.id) in out_params:
+                            out_params.add((cs.target.fq, p))
+    L = LenInterp(ctx, fis)
+    appends = L.run()
+    if L.unsupported:
+        raise AnalysisError(f"R-LEN: statement kinds not supported by the interval analysis: {L.unsupported[:3]}")
+    n = 0
+    for fi, call, iv, recv in appends:
+        if (fi.fq, recv) not in out_params:
+            continue
+        n += 1
+        ok = iv.hi <= LIMIT
+        res.inst(fi.fq, short(call, 90), "ok" if ok else "fail", detail=f"length in {iv}")
+        if not ok:
+            res.fail(Finding("R-LEN", fi.module.rel, fi.qualname, norm(call),
+                             f"this line can be {'arbitrarily long' if iv.hi == INF else str(iv.hi) + ' characters'}; the format allows 80 including the newline "
+                             "(only the wrapping helper may emit data-dependent text)", line=call.lineno))
+        # a literal newline inside an appended string would split the line
+        for c in ast.walk(call.args[-1]):
+            if isinstance(c, ast.Constant) and isinstance(c.value, str) and "\n" in c.value:
+                res.fail(Finding("R-LEN", fi.module.rel, fi.qualname, norm(call), "appended text contains a newline", line=call.lineno))
+    if n < 3:
+        raise AnalysisError(f"R-LEN: only {n} append sites on the output list found (anchor vanished)")
+    res.counts = {"append_sites": n, "functions": len(fis)}
+    res.notes = [f"parameter length bounds: " + ", ".join(f"{k[0].rsplit('.', 1)[1]}.{k[1]}={v}" for k, v in sorted(L.param_iv.items()) if v.hi != INF or v.lo)]
+    res.trusted = ["strftime directive widths (spec.py)", "len() of a format field is at least its width"]
+    return res
+
+
+# --------------------------------------------------------------------------- R-WRAP
+
+
+def _wrap_helper(ctx) -> FuncInfo:
+    """the function of the writer that emits prefix + text and wraps long text"""
+    for fi in closure(ctx, "write"):
+        has_len_test = any(isinstance(n, ast.Compare) and isinstance(n.left, ast.Call) and isinstance(n.left.func, ast.Name) and n.left.func.id == "len" for n in own_walk(fi.node))
+        has_append = any(isinstance(n, ast.Call) and isinstance(n.func, ast.Attribute) and n.func.attr == "append" for n in own_walk(fi.node))
+        if has_len_test and has_append:
+            return fi
+    raise AnalysisError("R-WRAP: the writer has no function that tests a line length and appends (wrap helper vanished)")
+
+
+def _fstring_parts(e: ast.JoinedStr):
+    """(leading literal, trailing literal)"""
+    lead = e.values[0].value if e.values and isinstance(e.values[0], ast.Constant) else ""
+    trail = e.values[-1].value if len(e.values) > 1 and isinstance(e.values[-1], ast.Constant) else ""
+    return lead, trail
+
+
+@rule("R-WRAP")
+def r_wrap(ctx) -> RuleResult:
+    res = RuleResult("R-WRAP", "writer's line prefix and continuation character equal the reader's; the reader strips exactly the prefix length; no logical line the writer emits ends in the continuation character")
+    wh = _wrap_helper(ctx)
+    apps = [n for n in own_walk(wh.node) if isinstance(n, ast.Call) and isinstance(n.func, ast.Attribute) and n.func.attr == "append" and n.args and isinstance(n.args[0], ast.JoinedStr)]
+    if len(apps) < 2:
+        raise AnalysisError("R-WRAP: wrap helper does not append a final and a continued f-string line")
+    prefixes, conts = set(), set()
+    for a in apps:
+        lead, trail = _fstring_parts(a.args[0])
+        prefixes.add(lead)
+        if trail:
+            conts.add(trail)
+    # reader side
+    v3 = reader_entries(ctx)["V3000"]
+    sp = None
+    for q in ctx.cg.closure([v3.fq]):
+        f = ctx.cg.funcs[q]
+        if any(isinstance(x, ast.Call) and isinstance(x.func, ast.Attribute) and x.func.attr == "endswith" for x in own_walk(f.node)):
+            sp = f
+    if sp is None:
+        raise AnalysisError("R-WRAP: reader has no continuation-line splicer")
+    r_prefix = {x.args[0].value for x in own_walk(sp.node) if isinstance(x, ast.Call) and isinstance(x.func, ast.Attribute) and x.func.attr == "startswith" and x.args and isinstance(x.args[0], ast.Constant)}
+    r_cont = {x.args[0].value for x in own_walk(sp.node) if isinstance(x, ast.Call) and isinstance(x.func, ast.Attribute) and x.func.attr == "endswith" and x.args and isinstance(x.args[0], ast.Constant)}
+    ok = len(prefixes) == 1 and prefixes == r_prefix
+    res.inst(f"{wh.fq} vs {sp.fq}", f"line prefix {sorted(prefixes)} / {sorted(r_prefix)}", "ok" if ok else "fail")
+    if not ok:
+        res.fail(Finding("R-WRAP", wh.module.rel, wh.qualname, f"prefix {sorted(prefixes)} vs reader {sorted(r_prefix)}", "writer and reader disagree on the V3000 line prefix", line=wh.node.lineno))
+    ok = len(conts) == 1 and conts == r_cont
+    res.inst(f"{wh.fq} vs {sp.fq}", f"continuation character {sorted(conts)} / {sorted(r_cont)}", "ok" if ok else "fail")
+    if not ok:
+        res.fail(Finding("R-WRAP", wh.module.rel, wh.qualname, f"continuation {sorted(conts)} vs reader {sorted(r_cont)}", "writer and reader disagree on the continuation character", line=wh.node.lineno))
+    # reader strips: curr_line[0:-len(cont)] + next_line[len(prefix):]
+    plen = len(next(iter(r_prefix))) if r_prefix else None
+    clen = len(next(iter(r_cont))) if r_cont else None
+    cat = [x for x in own_walk(sp.node) if isinstance(x, ast.BinOp) and isinstance(x.op, ast.Add) and isinstance(x.left, ast.Subscript) and isinstance(x.right, ast.Subscript)]
+    ok = False
+    for x in cat:
+        l, r = x.left.slice, x.right.slice
+        if isinstance(l, ast.Slice) and isinstance(r, ast.Slice):
+            lhi = try_const(ctx, sp, l.upper) if l.upper is not None else None
+            llo = try_const(ctx, sp, l.lower) if l.lower is not None else 0
+            rlo = try_const(ctx, sp, r.lower) if r.lower is not None else 0
+            if llo == 0 and lhi == -clen and rlo == plen and r.upper is None:
+                ok = True
+    res.inst(sp.fq, "splice = current[0:-1] + next[len(prefix):]", "ok" if ok else "fail", detail=f"prefix length {plen}")
+    if not ok:
+        n = cat[0] if cat else sp.node
+        res.fail(Finding("R-WRAP", sp.module.rel, sp.qualname, norm(n) if cat else "splice", f"the splice does not drop exactly the continuation character and the {plen}-character prefix of the next line", line=n.lineno))
+    # wrap arithmetic: the chunk taken equals the rest dropped
+    chunk = [n for n in own_walk(wh.node) if isinstance(n, ast.Assign) and isinstance(n.value, ast.Tuple) and len(n.value.elts) == 2
+             and all(isinstance(v, ast.Subscript) and isinstance(v.slice, ast.Slice) for v in n.value.elts)]
+    for n in chunk:
+        a, b = n.value.elts
+        ahi = try_const(ctx, wh, a.slice.upper) if a.slice.upper is not None else None
+        blo = try_const(ctx, wh, b.slice.lower) if b.slice.lower is not None else None
+        ok = a.slice.lower is None and b.slice.upper is None and isinstance(ahi, int) and ahi == blo and ahi > 0 and norm(a.value) == norm(b.value)
+        res.inst(wh.fq, short(n), "ok" if ok else "fail", detail="chunk emitted + rest kept = whole text")
+        if not ok:
+            res.fail(Finding("R-WRAP", wh.module.rel, wh.qualname, norm(n), "wrapping drops or duplicates characters (emitted chunk and kept rest do not partition the text)", line=n.lineno))
+    # last character of every logical line
+    text_param = params_of(wh.node)[1] if len(params_of(wh.node)) > 1 else None
+    n_lines = 0
+    cont = next(iter(conts)) if conts else "-"
+    for fi in closure(ctx, "write"):
+        for cs in sites(ctx, fi):
+            if cs.kind == "tucan" and cs.target.fq == wh.fq and len(cs.node.args) >= 2:
+                n_lines += 1
+                chars = _last_chars(ctx, fi, cs.node.args[1])
+                ok = chars is not None and cont not in chars
+                res.inst(fi.fq, f"logical line {short(cs.node.args[1], 70)} cannot end in {cont!r}", "ok" if ok else "fail", detail=f"last character ∈ {sorted(chars) if chars is not None else 'unknown'}")
+                if not ok:
+                    res.fail(Finding("R-WRAP", fi.module.rel, fi.qualname, norm(cs.node.args[1]),
+                                     f"this logical line may end in {cont!r}: the reader would splice it with the following line", line=cs.node.lineno))
+    if n_lines < 4:
+        raise AnalysisError("R-WRAP: fewer than 4 logical-line emissions found in the writer")
+    return res
+
+
+DIGITS = set("0123456789")
+
+
+def _last_chars(ctx, fi: FuncInfo, e: ast.expr, depth=0) -> Optional[set]:
+    """over-approximation of the set of possible last characters of str(e); None = unknown.
+    The empty string is represented by the element ''."""
+    if depth > 6:
+        return None
+    if isinstance(e, ast.Constant):
+        if isinstance(e.value, str):
+            return {e.value[-1]} if e.value else {""}
+        if isinstance(e.value, (int, float)):
+            return set(DIGITS)
+        return None
+    if isinstance(e, ast.JoinedStr):
+        out: set = set()
+        pending = True
+        for p in reversed(e.values):
+            if isinstance(p, ast.Constant):
+                s = {p.value[-1]} if p.value else {""}
+            else:
+                v = p.value
+                if p.format_spec is not None:
+                    spec = try_const(ctx, fi, p.format_spec)
+                    s = set(DIGITS) if isinstance(spec, str) and spec[-1:] in "fdeEgG" else None
+                else:
+                    s = _last_chars(ctx, fi, v, depth + 1)
+            if s is None:
+                return None
+            out |= (s - {""})
+            if "" not in s:
+                pending = False
+                break
+        if pending:
+            out.add("")
+        return out
+    if isinstance(e, ast.Name):
+        defs = assigned_names(fi.node).get(e.id, [])
+        if not defs:
+            return None
+        out = set()
+        for d in defs:
+            v = d.value if isinstance(d, (ast.Assign, ast.AnnAssign, ast.NamedExpr)) else None
+            if isinstance(d, ast.Assign) and isinstance(d.targets[0], ast.Tuple):
+                return None if not _numeric_name(fi, e.id) else set(DIGITS)
+            if v is None:
+                return None if not _numeric_name(fi, e.id) else set(DIGITS)
+            s = _last_chars(ctx, fi, v, depth + 1)
+            if s is None:
+                if _numeric_name(fi, e.id):
+                    s = set(DIGITS)
+                else:
+                    return None
+            out |= s
+        return out
+    if isinstance(e, ast.IfExp):
+        a, b = _last_chars(ctx, fi, e.body, depth + 1), _last_chars(ctx, fi, e.orelse, depth + 1)
+        if a is None or b is None:
+            return None
+        return a | b
+    if isinstance(e, ast.BinOp):
+        if isinstance(e.op, ast.Add) and (isinstance(e.left, (ast.JoinedStr,)) or (isinstance(e.left, ast.Constant) and isinstance(e.left.value, str))):
+            r = _last_chars(ctx, fi, e.right, depth + 1)
+            if r is not None and "" in r:
+                l = _last_chars(ctx, fi, e.left, depth + 1)
+                return None if l is None else (r - {""}) | l
+            return r
+        return set(DIGITS)       # arithmetic: a number
+    if isinstance(e, ast.Call) and isinstance(e.func, ast.Name) and e.func.id in ("int", "len", "abs", "float", "round"):
+        return set(DIGITS) | set("fn")    # inf / nan
+    if isinstance(e, ast.NamedExpr):
+        return _last_chars(ctx, fi, e.value, depth + 1)
+    return None
+
+
+def _numeric_name(fi: FuncInfo, name: str) -> bool:
+    """the name is compared with numbers / used in arithmetic somewhere in the function (so it holds a number when it is formatted)"""
+    for n in own_walk(fi.node):
+        if isinstance(n, ast.Compare):
+            parts = [n.left] + list(n.comparators)
+            if any(isinstance(p, ast.Name) and p.id == name for p in parts) or any(isinstance(p, ast.NamedExpr) and p.target.id == name for p in parts):
+                if any(isinstance(p, ast.Constant) and isinstance(p.value, (int, float)) and not isinstance(p.value, bool) for p in parts):
+                    return True
+        if isinstance(n, ast.BinOp) and any(isinstance(p, ast.Name) and p.id == name for p in (n.left, n.right)) and isinstance(n.op, (ast.Add, ast.Sub, ast.Mult)):
+            if any(isinstance(p, ast.Constant) and isinstance(p.value, int) for p in (n.left, n.right)):
+                return True
+        if isinstance(n, ast.Call) and isinstance(n.func, ast.Name) and n.func.id == "enumerate":
+            pass
+    # loop variable of enumerate(...) is an int
+    for n in own_walk(fi.node):
+        if isinstance(n, ast.For) and isinstance(n.iter, ast.Call) and isinstance(n.iter.func, ast.Name) and n.iter.func.id == "enumerate" \
+                and isinstance(n.target, ast.Tuple) and isinstance(n.target.elts[0], ast.Name) and n.target.elts[0].id == name:
+            return True
+    return False
+
+
+# --------------------------------------------------------------------------- R-FIELDS
+
+
+def _template_calls(ctx, wh: FuncInfo):
+    """(function, f-string) for every logical line emitted through the wrap helper"""
+    out = []
+    for fi in closure(ctx, "write"):
+        for cs in sites(ctx, fi):
+            if cs.kind == "tucan" and cs.target.fq == wh.fq and len(cs.node.args) >= 2:
+                out.append((fi, cs.node.args[1], cs.node))
+    return out
+
+
+class _Sentinel:
+    """value that formats to a recognisable token and survives `+ 1` and format specs"""
+
+    def __init__(self, tag):
+        self.tag = tag
+
+    def __add__(self, o):
+        return _Sentinel(f"{self.tag}+{o}")
+
+    def __format__(self, spec):
+        return f"<{self.tag}{'|' + spec if spec else ''}>"
+
+    def __str__(self):
+        return f"<{self.tag}>"
+
+
+def _instantiate(ctx, fi: FuncInfo, tmpl: ast.expr) -> Optional[list[str]]:
+    """tokens of a template line with every formatted expression replaced by a sentinel naming it"""
+    if isinstance(tmpl, ast.Constant) and isinstance(tmpl.value, str):
+        return tmpl.value.split()
+    if not isinstance(tmpl, ast.JoinedStr):
+        return None
+    s = ""
+    for p in tmpl.values:
+        if isinstance(p, ast.Constant):
+            s += p.value
+        else:
+            spec = try_const(ctx, fi, p.format_spec) if p.format_spec is not None else ""
+            s += f"<{norm(p.value)}{'|' + spec if spec else ''}>".replace(" ", "")
+    return s.split()
+
+
+@rule("R-FIELDS")
+def r_fields(ctx) -> RuleResult:
+    res = RuleResult("R-FIELDS", "the writer's line templates put each field at the token position the V3000 reader reads it from; optional tokens are KEY=value with the reader's keywords and the format's range guards; coordinates use six decimals; the line sequence matches the reader's positional expectations")
+    wh = _wrap_helper(ctx)
+    prefix_tokens = 2          # "M  V30 " contributes the tokens 'M', 'V30'
+    v3fi, I, rec, bonds = analyse_reader(ctx, "V3000")
+    # reader side: which token index feeds what (provenance labels of the heap interpreter)
+    common = None
+    for ev in I.events:
+        if ev.kind == "store":
+            common = set(ev.flags) if common is None else common & set(ev.flags)
+
+    def idx_of(obj):
+        return {c[1:-1] for c in _labels(set(taint(obj)) - (common or set()), "@idx")}
+    reader_pos = {"element_symbol": idx_of(rec.fields.get("element_symbol")), "x": idx_of(rec.fields.get("x_coord")),
+                  "y": idx_of(rec.fields.get("y_coord")), "z": idx_of(rec.fields.get("z_coord"))}
+    brec = bonds.elem if bonds.kind == "map" else None
+    bond_type_pos = idx_of(brec.fields.get("bond_type")) if brec is not None and brec.kind == "rec" else set()
+    bond_end_pos = {c[1:-1] for c in _labels(bonds.keyt, "@idx")}
+    # atom index position: the key of the atom map
+    atoms_obj = None
+    templates = _template_calls(ctx, wh)
+    atom_t = bond_t = counts_t = None
+    for fi, t, call in templates:
+        toks = _instantiate(ctx, fi, t)
+        if toks is None:
+            continue
+        txt = " ".join(toks)
+        if "COUNTS" in txt:
+            counts_t = (fi, t, toks)
+        elif "ELEMENT_SYMBOL" in txt or "element_symbol" in txt.lower():
+            atom_t = (fi, t, toks)
+        elif "bond_type" in txt.lower() or "BOND_TYPE" in txt:
+            bond_t = (fi, t, toks)
+    if atom_t is None or bond_t is None or counts_t is None:
+        raise AnalysisError("R-FIELDS: atom / bond / counts line templates not found in the writer")
+    # ---- atom line
+    fi, t, toks = atom_t
+    pos = {name: None for name in ("index", "symbol", "x", "y", "z")}
+    for i, tok in enumerate(toks):
+        p = i + prefix_tokens
+        low = tok.lower()
+        if "element_symbol" in low:
+            pos["symbol"] = p
+        elif low.startswith("<x|") or low.startswith("<x>"):
+            pos["x"] = p
+        elif low.startswith("<y|") or low.startswith("<y>"):
+            pos["y"] = p
+        elif low.startswith("<z|") or low.startswith("<z>"):
+            pos["z"] = p
+        elif "index" in low and pos["index"] is None:
+            pos["index"] = p
+    checks = [("symbol", reader_pos["element_symbol"]), ("x", reader_pos["x"]), ("y", reader_pos["y"]), ("z", reader_pos["z"])]
+    for name, want in checks:
+        ok = pos[name] is not None and {str(pos[name])} == want
+        res.inst(fi.fq, f"atom line: {name} is token {pos[name]}; reader reads token {sorted(want)}", "ok" if ok else "fail")
+        if not ok:
+            res.fail(Finding("R-FIELDS", fi.module.rel, fi.qualname, norm(t), f"atom line: the writer puts {name} at token {pos[name]}, the reader reads it from token {sorted(want)}", line=t.lineno))
+    # atom index: reader `int(line[2]) - 1`
+    ok = pos["index"] == 2 and "+1" in toks[0]
+    res.inst(fi.fq, f"atom line: 1-based index is token {pos['index']}", "ok" if ok else "fail")
+    if not ok:
+        res.fail(Finding("R-FIELDS", fi.module.rel, fi.qualname, norm(t), "atom line: the atom number is not the first field after the prefix, written as label + 1", line=t.lineno))
+    # coordinates .6f
+    for i, tok in enumerate(toks):
+        if tok.lower().startswith(("<x", "<y", "<z")):
+            ok = tok.endswith("|.6f>")
+            res.inst(fi.fq, f"coordinate token {tok}", "ok" if ok else "fail")
+            if not ok:
+                res.fail(Finding("R-FIELDS", fi.module.rel, fi.qualname, norm(t), f"coordinate {tok} is not written with six decimals", line=t.lineno))
+    # optional tokens: each is ' KW=<value>' guarded by the format's range, and the reader recognises KW for the same key
+    _check_optional_tokens(ctx, fi, res)
+    # ---- bond line
+    fi, t, toks = bond_t
+    bt = next((i + prefix_tokens for i, tok in enumerate(toks) if "bond_type" in tok.lower()), None)
+    ends = [i + prefix_tokens for i, tok in enumerate(toks) if "+1" in tok]
+    ok = bt is not None and {str(bt)} == bond_type_pos
+    res.inst(fi.fq, f"bond line: type is token {bt}; reader reads {sorted(bond_type_pos)}", "ok" if ok else "fail")
+    if not ok:
+        res.fail(Finding("R-FIELDS", fi.module.rel, fi.qualname, norm(t), f"bond line: bond type at token {bt}, reader reads token {sorted(bond_type_pos)}", line=t.lineno))
+    ok = {str(e) for e in ends} == bond_end_pos and len(ends) == 2
+    res.inst(fi.fq, f"bond line: endpoints (label + 1) are tokens {ends}; reader reads {sorted(bond_end_pos)}", "ok" if ok else "fail")
+    if not ok:
+        res.fail(Finding("R-FIELDS", fi.module.rel, fi.qualname, norm(t), f"bond line: endpoints at tokens {ends} (as label + 1), reader reads tokens {sorted(bond_end_pos)} and subtracts 1", line=t.lineno))
+    # ---- counts line and line sequence
+    fi, t, toks = counts_t
+    ok = toks[0] == "COUNTS" and len(toks) + prefix_tokens >= 5 and "number_of_nodes" in toks[1] and "number_of_edges" in toks[2]
+    res.inst(fi.fq, f"counts line tokens {toks}", "ok" if ok else "fail")
+    if not ok:
+        res.fail(Finding("R-FIELDS", fi.module.rel, fi.qualname, norm(t), "counts line is not `COUNTS <atoms> <bonds> …` with at least five tokens", line=t.lineno))
+    _check_line_sequence(ctx, wh, res)
+    return res
+
+
+def _check_optional_tokens(ctx, fi: FuncInfo, res: RuleResult):
+    """`name = f" KW={v}" if (v := attrs.get(KEY)) and <range> else ""`"""
+    v3 = reader_entries(ctx)["V3000"]
+    preds = []
+    for q in ctx.cg.closure([v3.fq]):
+        f = ctx.cg.funcs[q]
+        preds += [(f, *p) for p in _token_predicates(ctx, f)]
+    want = {"chg": ("CHG", [-15, -1, 1, 15], [0, 16, -16]), "rad": ("RAD", [1, 2, 3], [0, 4, -1]), "mass": ("MASS", [1, 13, 300], [0, -1])}
+    found = set()
+    for n in own_walk(fi.node):
+        if not (isinstance(n, ast.Assign) and isinstance(n.value, ast.IfExp) and isinstance(n.value.body, ast.JoinedStr)):
+            continue
+        body, test, orelse = n.value.body, n.value.test, n.value.orelse
+        lead, _ = _fstring_parts(body)
+        if not (lead.startswith(" ") and lead.endswith("=")):
+            continue
+        kw = lead.strip()[:-1]
+        key = None
+        var = None
+        for x in ast.walk(test):
+            if isinstance(x, ast.NamedExpr) and isinstance(x.value, ast.Call) and isinstance(x.value.func, ast.Attribute) and x.value.func.attr == "get" and x.value.args:
+                key = try_const(ctx, fi, x.value.args[0])
+                var = x.target.id
+        if key not in want or var is None:
+            res.inst(fi.fq, short(n), "fail")
+            res.fail(Finding("R-FIELDS", fi.module.rel, fi.qualname, norm(n), f"optional token `{lead}…` is not tied to one of chg / rad / mass", line=n.lineno))
+            continue
+        found.add(key)
+        wkw, inside, outside = want[key]
+        okkw = kw == wkw and isinstance(orelse, ast.Constant) and orelse.value == ""
+        # range guard by partial evaluation of the test with the walrus value stubbed
+        stubs = {norm(x): None for x in ast.walk(test) if isinstance(x, ast.NamedExpr)}
+
+        def holds(v):
+            t2 = ast.parse(norm(test), mode="eval").body
+            env = {}
+            class Sub(ast.NodeTransformer):
+                def visit_NamedExpr(self, node):
+                    return ast.copy_location(ast.Constant(v), node)
+            t3 = ast.fix_missing_locations(Sub().visit(t2))
+            return bool(ceval(t3, {var: v}))
+        try:
+            okrange = all(holds(v) for v in inside) and not any(holds(v) for v in outside) and not holds(None)
+        except Unsupported as e:
+            raise AnalysisError(f"R-FIELDS: guard `{short(test)}`: {e}")
+        # the reader recognises this token for the same key (one recognizer accepts it)
+        tok = f"{wkw}={inside[0]}"
+        acc = []
+        for f, owner, pv, pred in preds:
+            try:
+                if ceval(pred, {pv: tok}) and not ceval(pred, {pv: "C"}) and not ceval(pred, {pv: "0.000000"}):
+                    acc.append(pred)      # an attribute recognizer (not a generic token filter)
+            except Exception:
+                pass
+        okread = len(acc) == 1
+        ok = okkw and okrange and okread
+        res.inst(fi.fq, short(n, 100), "ok" if ok else "fail", detail=f"keyword {kw}, range guard holds on {inside} and fails on {outside}, reader recognizers accepting `{tok}`: {len(acc)}")
+        if not okkw:
+            res.fail(Finding("R-FIELDS", fi.module.rel, fi.qualname, norm(n), f"attribute `{key}` is written with keyword `{kw}` (format: {wkw}) or has a non-empty fallback", line=n.lineno))
+        if not okrange:
+            res.fail(Finding("R-FIELDS", fi.module.rel, fi.qualname, norm(test), f"range guard of `{key}` does not match the format's range (must hold for {inside}, fail for {outside} and for a missing value)", line=n.lineno))
+        if not okread:
+            res.fail(Finding("R-FIELDS", fi.module.rel, fi.qualname, norm(n), f"token `{tok}` is accepted by {len(acc)} recognizers of the reader", line=n.lineno))
+    missing = set(want) - found
+    if missing:
+        raise AnalysisError(f"R-FIELDS: optional tokens for {sorted(missing)} not found in the atom line writer")
+
+
+def _check_line_sequence(ctx, wh: FuncInfo, res: RuleResult):
+    """count the lines emitted before the COUNTS line and before the first atom line and compare with the reader's offsets"""
+    w = entry(ctx, "write")
+    out_list, _ = _writer_out_list(ctx, w)
+
+    def emitted_before(fi: FuncInfo, stop_pred, depth=0):
+        """(#lines emitted by straight-line code of fi before the statement satisfying stop_pred, found?)"""
+        n = 0
+        for st in fi.node.body:
+            if stop_pred(st):
+                return n, True
+            if isinstance(st, ast.Expr) and isinstance(st.value, ast.Call):
+                c = st.value
+                if isinstance(c.func, ast.Attribute) and c.func.attr == "append":
+                    n += 1
+                    continue
+                cs = ctx.cg.resolve_call(fi, c, ctx.cg.local_types(fi), set(params_of(fi.node)))
+                if cs.kind == "tucan":
+                    if cs.target.fq == wh.fq:
+                        n += 1
+                        continue
+                    if depth < 3:
+                        m, found = emitted_before(cs.target, stop_pred, depth + 1)
+                        n += m
+                        if found:
+                            return n, True
+                        continue
+            if isinstance(st, (ast.For, ast.While, ast.If)):
+                if any(stop_pred(x) for x in ast.walk(st) if isinstance(x, ast.stmt)):
+                    return n, True
+                emits = any(isinstance(x, ast.Call) and ((isinstance(x.func, ast.Attribute) and x.func.attr == "append") or
+                                                         (ctx.cg.resolve_call(fi, x, ctx.cg.local_types(fi), set(params_of(fi.node))).kind == "tucan"))
+                            for x in ast.walk(st))
+                if emits:
+                    return n, False      # data-dependent number of lines: stop counting here
+                continue
+        return n, False
+
+    def is_counts(st):
+        return isinstance(st, ast.Expr) and "COUNTS" in norm(st)
+
+    def is_atom_loop(st):
+        return isinstance(st, ast.For) and "nodes" in norm(st.iter)
+    n_counts, f1 = emitted_before(w, is_counts)
+    n_atoms, f2 = emitted_before(w, is_atom_loop)
+    v3 = reader_entries(ctx)["V3000"]
+    # reader offsets: lines[5] is the counts line, atom block starts at 7
+    r_counts = r_atoms = None
+    for q in ctx.cg.closure([v3.fq]):
+        f = ctx.cg.funcs[q]
+        for x in own_walk(f.node):
+            if isinstance(x, ast.Compare) and isinstance(x.comparators[0], ast.Constant) and x.comparators[0].value == "COUNTS" and isinstance(x.left, ast.Subscript) \
+                    and isinstance(x.left.value, ast.Subscript):
+                r_counts = try_const(ctx, f, x.left.value.slice)
+            if isinstance(x, ast.Assign) and isinstance(x.targets[0], ast.Name) and x.targets[0].id == "atom_block_offset":
+                r_atoms = try_const(ctx, f, x.value)
+    ok = f1 and r_counts is not None and n_counts == r_counts
+    res.inst(w.fq, f"COUNTS is written as line {n_counts} (0-based); reader expects it at {r_counts}", "ok" if ok else "fail")
+    if not ok:
+        res.fail(Finding("R-FIELDS", w.module.rel, w.qualname, "line sequence before COUNTS", f"the writer emits {n_counts} lines before the counts line, the reader looks for it at logical line {r_counts}", line=w.node.lineno))
+    ok = f2 and r_atoms is not None and n_atoms == r_atoms
+    res.inst(w.fq, f"first atom line is line {n_atoms}; reader's atom block offset {r_atoms}", "ok" if ok else "fail")
+    if not ok:
+        res.fail(Finding("R-FIELDS", w.module.rel, w.qualname, "line sequence before the atom block", f"the writer emits {n_atoms} lines before the first atom line, the reader starts the atom block at {r_atoms}", line=w.node.lineno))
+    # version token on line 4 (index 3): dispatcher reads lines[3] last token
+    disp = entry(ctx, "read_text")
+    hdr = None
+    for fi in closure(ctx, "write"):
+        for n in own_walk(fi.node):
+            if isinstance(n, ast.Call) and isinstance(n.func, ast.Attribute) and n.func.attr == "append" and n.args and isinstance(n.args[0], ast.Constant) \
+                    and isinstance(n.args[0].value, str) and n.args[0].value.rstrip().endswith("V3000"):
+                hdr = (fi, n)
+    ok = hdr is not None
+    if ok:
+        fi, n = hdr
+        idx = sum(1 for st in fi.node.body if isinstance(st, ast.Expr) and isinstance(st.value, ast.Call) and isinstance(st.value.func, ast.Attribute)
+                  and st.value.func.attr == "append" and st.value.lineno < n.lineno)
+        ok = idx == 3 and n.args[0].value.rstrip().split(" ")[-1] == "V3000"
+    res.inst(w.fq, "version line `… V3000` is the 4th header line", "ok" if ok else "fail")
+    if not ok:
+        res.fail(Finding("R-FIELDS", w.module.rel, w.qualname, "version line", "the `V3000` version line is not the 4th line of the header", line=w.node.lineno))
+    # omitted bond block <-> reader's bond_count == 0 shortcut
+    bondf = None
+    for fi in closure(ctx, "write"):
+        if any(isinstance(x, ast.Constant) and x.value == "BEGIN BOND" for x in ast.walk(fi.node)):
+            bondf = fi
+    if bondf is None:
+        raise AnalysisError("R-FIELDS: writer has no bond block")
+    guard = next((st for st in bondf.node.body if isinstance(st, ast.If) and any(isinstance(x, ast.Return) for x in st.body)), None)
+    reader_shortcut = any(isinstance(x, ast.If) and isinstance(x.test, ast.Compare) and "bond_count" in norm(x.test) and isinstance(x.test.comparators[0], ast.Constant) and x.test.comparators[0].value == 0
+                          for q in ctx.cg.closure([v3.fq]) for x in own_walk(ctx.cg.funcs[q].node))
+    if guard is not None:
+        ok = "number_of_edges() == 0" in norm(guard.test) and reader_shortcut
+        res.inst(bondf.fq, f"bond block omitted iff no bonds (`{short(guard.test)}`), reader skips it when the count is 0", "ok" if ok else "fail")
+        if not ok:
+            res.fail(Finding("R-FIELDS", bondf.module.rel, bondf.qualname, norm(guard.test), "the bond block is omitted under a condition the reader does not mirror (bond count 0)", line=guard.lineno))
+    else:
+        res.inst(bondf.fq, "bond block always written", "ok")
